@@ -294,8 +294,8 @@ pub fn add_trusted_issuer_step() {
     let e = Env::default();
     let (t, pre) = declare_state();
     let i = pick_issuer();
-    let topics: Vec<u32> = Vec::arb();
-    let tl = List::of_u32_vec(&topics);
+    let tl = List::arb(0, CAP as u32);
+    let topics = tl.to_u32_vec();
     let before = snapshot();
 
     add_trusted_issuer(&e, &Address::from_id(i), &topics);
@@ -409,8 +409,8 @@ pub fn update_issuer_claim_topics_step() {
     let e = Env::default();
     let (t, pre) = declare_state();
     let i = pick_issuer();
-    let topics: Vec<u32> = Vec::arb();
-    let tl = List::of_u32_vec(&topics);
+    let tl = List::arb(0, CAP as u32);
+    let topics = tl.to_u32_vec();
     let before = snapshot();
     let had = pre.ict_of(i);
 
